@@ -27,10 +27,18 @@ func (s Shape) String() string {
 
 func (s Shape) fieldType() string { return strings.Replace(s.Wrap, "T", s.Named, 1) }
 
-var namedTypes = []string{"String", "Int", "Float", "Boolean", "ID", "E", "J", "O", "I", "U"}
+// I1 is an interface with exactly one implementer, U1 a union with exactly one
+// member: abstract plan objects with a single possible type.
+var namedTypes = []string{"String", "Int", "Float", "Boolean", "ID", "E", "J", "O", "I", "U", "I1", "U1"}
 var contexts = []string{"root", "nullobj", "nnobj", "listobj", "nnlistobj"}
 
-func isComposite(named string) bool { return named == "O" || named == "I" || named == "U" }
+func isComposite(named string) bool {
+	switch named {
+	case "O", "I", "U", "I1", "U1":
+		return true
+	}
+	return false
+}
 
 // wrappings returns every list/non-null wrapping with list depth <= maxDepth,
 // ordered by depth, then by number of '!'.
@@ -57,9 +65,9 @@ func wrappings(maxDepth int) []string {
 
 func selections(named string) []string {
 	switch named {
-	case "I":
+	case "I", "I1":
 		return []string{"plain", "typename", "fragments"}
-	case "U":
+	case "U", "U1":
 		return []string{"typename", "fragments"}
 	default:
 		return []string{"plain", "typename"}
@@ -216,6 +224,27 @@ func namedNode(named, sel string) *tnode {
 				{key: "b", on: []string{"UB"}, node: leaf("Int", true)}}
 		}
 		return n
+	case "I1":
+		n := &tnode{kind: kObject, nullable: true, typeName: "I1", possible: []string{"I1A"}, abstract: true}
+		switch sel {
+		case "plain":
+			n.fields = []tfield{{key: "x", node: leaf("String", true)}}
+		case "typename":
+			n.fields = []tfield{{key: "__typename", node: typenameLeaf()}, {key: "x", node: leaf("String", true)}}
+		case "fragments":
+			n.fields = []tfield{{key: "x", node: leaf("String", true)},
+				{key: "a", on: []string{"I1A"}, node: leaf("Int", false)}}
+		}
+		return n
+	case "U1":
+		n := &tnode{kind: kObject, nullable: true, typeName: "U1", possible: []string{"U1A"}, abstract: true}
+		switch sel {
+		case "typename":
+			n.fields = []tfield{{key: "__typename", node: typenameLeaf()}}
+		case "fragments":
+			n.fields = []tfield{{key: "a", on: []string{"U1A"}, node: leaf("Int", false)}}
+		}
+		return n
 	default:
 		return leaf(named, true)
 	}
@@ -246,14 +275,14 @@ func (s Shape) tree() *tnode {
 		if scalarTypename {
 			root.fields = append(root.fields, tfield{key: "__typename", static: "Query"})
 		}
-		root.fields = append(root.fields, tfield{key: "f", node: f})
+		root.fields = append(root.fields, tfield{key: "k", node: leaf("String", true)}, tfield{key: "f", node: f}, tfield{key: "z", node: leaf("String", false)})
 		return root
 	}
 	p := &tnode{kind: kObject, typeName: "P", possible: []string{"P"}}
 	if scalarTypename {
 		p.fields = append(p.fields, tfield{key: "__typename", node: typenameLeaf()})
 	}
-	p.fields = append(p.fields, tfield{key: "k", node: leaf("String", true)}, tfield{key: "f", node: f})
+	p.fields = append(p.fields, tfield{key: "k", node: leaf("String", true)}, tfield{key: "f", node: f}, tfield{key: "z", node: leaf("String", false)})
 	var pn *tnode
 	switch s.Ctx {
 	case "nullobj":
@@ -295,10 +324,11 @@ func (s Shape) sdl() string {
 	b.WriteString("type O { a: String b: Int! }\n")
 	b.WriteString("interface I { x: String }\ntype IA implements I { x: String a: Int! }\ntype IB implements I { x: String b: Int }\n")
 	b.WriteString("union U = UA | UB\ntype UA { a: Int! }\ntype UB { b: Int }\n")
+	b.WriteString("interface I1 { x: String }\ntype I1A implements I1 { x: String a: Int! }\nunion U1 = U1A\ntype U1A { a: Int! }\n")
 	if s.Ctx == "root" {
-		fmt.Fprintf(&b, "type Query { f: %s }\n", s.fieldType())
+		fmt.Fprintf(&b, "type Query { k: String f: %s z: String! }\n", s.fieldType())
 	} else {
-		fmt.Fprintf(&b, "type P { k: String f: %s }\ntype Query { p: %s }\n", s.fieldType(), s.parentType())
+		fmt.Fprintf(&b, "type P { k: String f: %s z: String! }\ntype Query { p: %s }\n", s.fieldType(), s.parentType())
 	}
 	return b.String()
 }
